@@ -195,7 +195,9 @@ def deep_copy(x):
         return {k: deep_copy(v) for k, v in x.items()}
     if isinstance(x, Seq):
         f = x._fn
-        return Seq(x.length, lambda k, f=f: deep_copy(f(k)))
+        sq = Seq(x.length, lambda k, f=f: deep_copy(f(k)), label=x.label)
+        sq.meta = dict(x.meta)
+        return sq
     if isinstance(x, Obj):
         return Obj(x.cls, {k: deep_copy(v) for k, v in x.fields.items()})
     return x
@@ -228,6 +230,25 @@ def method_call(fr, obj, name, args, kwargs):
             return None
         if name == "copy":
             return Seq(obj.length, obj._fn)
+        if name == "remove":
+            # list.remove(x): drops the first occurrence; ValueError when absent
+            import ast as _ast
+            x = args[0]
+            n = obj.length
+            old = obj._fn
+            found = c.fresh_bool("found")
+            pos = c.fresh_int("pos")
+            eqat = lambda k: fr.compare(_ast.Eq(), old(k), x)      # noqa: E731
+            c.fact(z3.Implies(found, z3.And(pos >= 0, pos < zi(n), sym.zb(eqat(pos)))))
+            N.add_qfact(n, lambda m: sym.Implies_(sym.Not_(found), sym.Not_(eqat(m))), "remove.absent")
+            N.add_qfact(n, lambda m: sym.Implies_(sym.And_(found, zi(m) < pos), sym.Not_(eqat(m))), "remove.first")
+            N.ground(pos)
+            if not c.branch(found):
+                raise PyRaise("ValueError", "list.remove(x): x not in list")
+            obj._fn = lambda j, old=old, pos=pos: sym.Lazy.choose(sym.lt(j, pos), lambda: old(j), lambda: old(sym.add(j, 1)))
+            obj.length = sym.sub(n, 1)
+            obj.version += 1
+            return None
         if name == "pop":
             n = obj.length
             if c.branch(sym.le(n, 0)):
@@ -484,3 +505,116 @@ def _solve(fr, args, kwargs):
 @model("numpy.argsort")
 def _argsort(fr, args, kwargs):
     return N.argsort(args[0])
+
+
+# ----------------------------------------------------------------------------------
+# scipy.signal preprocessing routines: uninterpreted pure functions of (array, parameters)
+# ----------------------------------------------------------------------------------
+
+def _enc(v):
+    """parameter -> z3 term (Int / Real / Bool / Str) for use as an argument of an uninterpreted routine"""
+    from .interp import FmtStr
+    if v is None:
+        return sym.str_term("<None>")
+    if isinstance(v, bool):
+        return z3.BoolVal(v)
+    if isinstance(v, z3.BoolRef):
+        return v
+    if isinstance(v, str):
+        return sym.str_term(v)
+    if is_int(v):
+        return z3.ToReal(zi(v))
+    if isinstance(v, F):
+        return v.v
+    if isinstance(v, (tuple, list)):
+        # short parameter tuples (e.g. band edges): encode component-wise into one term
+        f = sym.ufun(f"tuple{len(v)}", *([z3.RealSort()] * len(v)), z3.RealSort())
+        return f(*[_enc(x) if isinstance(_enc(x), z3.ArithRef) else z3.RealVal(0) for x in v])
+    if isinstance(v, Opaque):
+        return sym.str_term(f"<opaque:{v.tag}>")
+    raise Unsupported(f"cannot encode parameter of type {type(v).__name__}")
+
+
+def _routine(name, x, params, shape):
+    from . import matmodel as MM
+    t = MM.termify(x)
+    encs = [_enc(p) for p in params]
+    f = sym.ufun("scipy." + name, MM.Mat, *[e.sort() for e in encs], MM.Mat)
+    return MM.mat_arr(f(t, *encs), shape, x.kind)
+
+
+def _norm_axis(axis, nd):
+    if not is_pyint(axis):
+        raise Unsupported("symbolic axis")
+    if axis < -nd or axis >= nd:
+        raise PyRaise("ValueError", "axis out of bounds")
+    return axis % nd
+
+
+def _bind(fname, args, kwargs, names, defaults):
+    vals = dict(defaults)
+    if len(args) > len(names):
+        raise PyRaise("TypeError", f"{fname}() takes at most {len(names)} positional arguments")
+    for n, a in zip(names, args):
+        vals[n] = a
+    for k, v in kwargs.items():
+        if k not in names:
+            raise PyRaise("TypeError", f"{fname}() got an unexpected keyword argument '{k}'")
+        if k in names[:len(args)]:
+            raise PyRaise("TypeError", f"{fname}() got multiple values for argument '{k}'")
+        vals[k] = v
+    for n in names:
+        if n not in vals:
+            raise PyRaise("TypeError", f"{fname}() missing required argument '{n}'")
+    return vals
+
+
+@model("scipy.signal.decimate")
+def _decimate(fr, args, kwargs):
+    v = _bind("decimate", args, kwargs, ["x", "q", "n", "ftype", "axis", "zero_phase"],
+              {"n": None, "ftype": "iir", "axis": -1, "zero_phase": True})
+    x = N.asarray(v["x"])
+    ax = _norm_axis(v["axis"], x.ndim)
+    q = v["q"]
+    if not is_int(q):
+        raise PyRaise("TypeError", "q must be an integer")
+    c = cur()
+    if c.branch(sym.lt(q, 1)):
+        raise PyRaise("ValueError", "decimation factor must be >= 1")
+    shape = list(x.shape)
+    shape[ax] = sym.floordiv(sym.add(shape[ax], sym.sub(q, 1)), q) if not (is_pyint(q) and q == 1) else shape[ax]
+    return _routine("decimate", x, [q, v["n"], v["ftype"], ax, v["zero_phase"]], tuple(shape))
+
+
+@model("scipy.signal.detrend")
+def _detrend(fr, args, kwargs):
+    v = _bind("detrend", args, kwargs, ["data", "axis", "type", "bp", "overwrite_data"],
+              {"axis": -1, "type": "linear", "bp": 0, "overwrite_data": False})
+    x = N.asarray(v["data"])
+    ax = _norm_axis(v["axis"], x.ndim)
+    if v["overwrite_data"] is not False:
+        raise Unsupported("detrend(overwrite_data=True) mutates its argument")
+    return _routine("detrend", x, [ax, v["type"], v["bp"]], tuple(x.shape))
+
+
+@model("scipy.signal.butter")
+def _butter(fr, args, kwargs):
+    v = _bind("butter", args, kwargs, ["N", "Wn", "btype", "analog", "output", "fs"],
+              {"btype": "low", "analog": False, "output": "ba", "fs": None})
+    return Opaque("sos", v)
+
+
+@model("scipy.signal.sosfiltfilt")
+def _sosfiltfilt(fr, args, kwargs):
+    v = _bind("sosfiltfilt", args, kwargs, ["sos", "x", "axis", "padtype", "padlen"],
+              {"axis": -1, "padtype": "odd", "padlen": None})
+    sos = v["sos"]
+    if not (isinstance(sos, Opaque) and sos.tag == "sos"):
+        raise Unsupported("sosfiltfilt with a filter that does not come from butter()")
+    b = sos.payload
+    if b["output"] != "sos":
+        raise PyRaise("ValueError", "sos array must be 2D")
+    x = N.asarray(v["x"])
+    ax = _norm_axis(v["axis"], x.ndim)
+    return _routine("butter_sosfiltfilt", x, [b["N"], b["Wn"], b["btype"], b["analog"], b["fs"], ax, v["padtype"], v["padlen"]],
+                    tuple(x.shape))
